@@ -13,6 +13,8 @@ EXTENDS Evm, Json, IOUtils, SequencesExt
 CONSTANT MaxSteps
 
 Cases == JsonDeserialize(IOEnv.CASES)
+\* cheatcode descriptors (see Cheats.tla), shared by all cases
+CheatTable == JsonDeserialize(IOEnv.CHEATS)
 
 VARIABLES cid,     \* index of the case
           m,       \* machine state of the message being executed
@@ -37,7 +39,9 @@ World0(c) == [code |-> SeqToMap(c.code, KA, VC),
 Env0(c) == [coinbase |-> c.env.coinbase, timestamp |-> c.env.timestamp, number |-> c.env.number,
             prevrandao |-> c.env.prevrandao, gaslimit |-> c.env.gaslimit, chainid |-> c.env.chainid,
             basefee |-> c.env.basefee, createBase |-> c.env.createBase,
-            opaque |-> {c.env.opaque[i] : i \in 1..Len(c.env.opaque)}]
+            opaque |-> {c.env.opaque[i] : i \in 1..Len(c.env.opaque)},
+            cheatAddrs |-> {c.env.cheatAddrs[i] : i \in 1..Len(c.env.cheatAddrs)},
+            cheats |-> CheatTable, oracle |-> c.env.oracle, assertMode |-> c.env.assertMode]
 
 MapToSeq(f, R(_, _)) == LET ks == SetToSeq(DOMAIN f) IN [i \in 1..Len(ks) |-> R(ks[i], f[ks[i]])]
 RS(k, v) == [a |-> k[1], k |-> k[2], v |-> v]
@@ -46,7 +50,9 @@ RC(k, v) == [a |-> k, c |-> v]
 
 Out(c, mm, n, h) ==
     [id |-> Cases[c].id, status |-> mm.status, ok |-> mm.result.ok, kind |-> mm.result.kind,
-     data |-> mm.result.data, logs |-> mm.logs, steps |-> n, pre |-> h,
+     data |-> mm.result.data, logs |-> mm.logs, steps |-> n, pre |-> h, failed |-> mm.failed,
+     block |-> [timestamp |-> mm.env.timestamp, number |-> mm.env.number, basefee |-> mm.env.basefee,
+                chainid |-> mm.env.chainid, coinbase |-> mm.env.coinbase, prevrandao |-> mm.env.prevrandao],
      storage |-> MapToSeq(mm.world.storage, RS), balance |-> MapToSeq(mm.world.balance, RB),
      code |-> MapToSeq(mm.world.code, RC), ncreated |-> mm.ncreated]
 
@@ -76,7 +82,7 @@ NextTx == /\ m.status = "done"
           /\ UNCHANGED <<cid, steps>>
 
 \* a message the specification does not model ends the case
-Abandon == /\ m.status = "unmodelled"
+Abandon == /\ m.status \in {"unmodelled", "discard"}
            /\ ~IsLast
            /\ ti' = Len(Cases[cid].txs)
            /\ PrintT("JREC" \o ToJson(Out(cid, m, steps, hist)))
